@@ -2,6 +2,8 @@ package props
 
 import (
 	"fmt"
+	"sort"
+	"strings"
 	"go/constant"
 	"go/token"
 	"go/types"
@@ -83,21 +85,42 @@ func errorExit(b *ssa.BasicBlock) bool {
 // one of the two labels of its wire; any other label ends the run with an error.
 func C16label(p *load.Program, run *report.Run) {
 	run.Rule("unknown-label-rejected", "wherever an output label is compared with a wire's labels (BitFromLabel, the streamer's result loop) the branch on which neither comparison holds leaves the function with a non-nil error; L0 yields 0/false and L1 yields 1/true; and every caller of BitFromLabel tests its error and leaves with an error when it is set")
-	type ref struct{ pkg, typ, name string }
-	decisions := map[string]int{"circuit.Garbler": 0, "compiler/ssa.Stream": 0}
-	for _, r := range []ref{{"circuit", "", "BitFromLabel"}, {"circuit", "", "Garbler"}, {"compiler/ssa", "Program", "Stream"}} {
-		var f *ssa.Function
-		var err error
-		if r.typ == "" {
-			f, err = p.Func(r.pkg, r.name)
-		} else {
-			f, err = p.Method(r.pkg, r.typ, r.name)
-		}
-		key := r.pkg + "." + r.name
-		if err != nil {
-			run.Undecided("unknown-label-rejected", key, "", err.Error())
+	decider := map[*ssa.Function]int{}
+	var scan []*ssa.Function
+	required := map[*ssa.Function]bool{}
+	if f, err := p.Func("circuit", "BitFromLabel"); err == nil {
+		required[f] = true
+	} else {
+		run.Undecided("unknown-label-rejected", "circuit.BitFromLabel", "", err.Error())
+	}
+	var roles []*ssa.Function
+	roleKey := map[*ssa.Function]string{}
+	if f, err := p.Func("circuit", "Garbler"); err == nil {
+		roles = append(roles, f)
+		roleKey[f] = "circuit.Garbler"
+	} else {
+		run.Undecided("unknown-label-rejected", "circuit.Garbler", "", err.Error())
+	}
+	if f, err := p.Method("compiler/ssa", "Program", "Stream"); err == nil {
+		roles = append(roles, f)
+		roleKey[f] = "compiler/ssa.Stream"
+	} else {
+		run.Undecided("unknown-label-rejected", "compiler/ssa.Stream", "", err.Error())
+	}
+	// every function of the two packages may hold a comparison chain (the roles, BitFromLabel, or a helper
+	// a role delegates to)
+	for _, fn := range p.AllFunctions() {
+		if !load.InModule(fn) || fn.Blocks == nil || fn.Pkg == nil {
 			continue
 		}
+		if pp := fn.Pkg.Pkg.Path(); pp != load.Module+"/circuit" && pp != load.Module+"/compiler/ssa" {
+			continue
+		}
+		scan = append(scan, fn)
+	}
+	sort.Slice(scan, func(i, j int) bool { return scan[i].Pos() < scan[j].Pos() })
+	for _, f := range scan {
+		key := fn16key(f)
 		chains := 0
 		for _, b := range f.Blocks {
 			iff, ok := b.Instrs[len(b.Instrs)-1].(*ssa.If)
@@ -179,82 +202,103 @@ func C16label(p *load.Program, run *report.Run) {
 				run.Violate("unknown-label-rejected", ckey, p.Rel(call.Pos()), "when the label equals neither L0 nor L1 the function does not leave with an error: a corrupted output label is turned into a result bit", nil)
 			}
 		}
-		if _, isRole := decisions[key]; isRole {
-			decisions[key] += chains
-		} else if chains == 0 {
+		decider[f] += chains
+		if required[f] && chains == 0 {
 			run.Violate("unknown-label-rejected", key, p.Rel(f.Pos()), "no comparison chain of the received label that ends in an error return", nil)
 		}
 	}
-	// callers of BitFromLabel
-	bfl, err := p.Func("circuit", "BitFromLabel")
-	if err != nil {
-		return
-	}
-	for _, fn := range p.AllFunctions() {
-		if !load.InModule(fn) || fn == bfl {
-			continue
-		}
-		for _, b := range fn.Blocks {
-			for _, ins := range b.Instrs {
-				c, ok := ins.(*ssa.Call)
-				if !ok || c.Call.StaticCallee() != bfl {
-					continue
-				}
-				if fn.Pkg != nil && fn.Pkg.Pkg.Path() != load.Module+"/circuit" && fn.Pkg.Pkg.Path() != load.Module+"/compiler/ssa" {
-					continue
-				}
-				run.Count("label-check-callers", 1)
-				key := fn.Pkg.Pkg.Name() + "." + fn.Name() + "/BitFromLabel"
-				var errv ssa.Value
-				for _, rf := range *c.Referrers() {
-					if ex, ok := rf.(*ssa.Extract); ok && ex.Index == 1 {
-						errv = ex
-					}
-				}
-				if errv == nil {
-					run.Violate("unknown-label-rejected", key, p.Rel(c.Pos()), "the error of BitFromLabel is discarded: an unknown label is read as the bit 0", nil)
-					continue
-				}
-				checked := false
-				for _, rf := range *errv.Referrers() {
-					bo, ok := rf.(*ssa.BinOp)
-					if !ok || (bo.Op != token.NEQ && bo.Op != token.EQL) {
+	// callers of a deciding function (BitFromLabel, or a helper that itself rejects unknown labels): the error
+	// must be tested and must end the caller with an error; such a caller is a deciding function in turn
+	checkedCalls := map[*ssa.Call]bool{}
+	for round := 0; round < 4; round++ {
+		grew := false
+		for _, fn := range scan {
+			for _, b := range fn.Blocks {
+				for _, ins := range b.Instrs {
+					c, ok := ins.(*ssa.Call)
+					if !ok || c.Call.StaticCallee() == nil || c.Call.StaticCallee() == fn || decider[c.Call.StaticCallee()] == 0 || checkedCalls[c] {
 						continue
 					}
-					for _, r2 := range *bo.Referrers() {
-						iff, ok := r2.(*ssa.If)
-						if !ok {
+					callee := c.Call.StaticCallee()
+					res := callee.Signature.Results()
+					if res.Len() == 0 || res.At(res.Len()-1).Type().String() != "error" {
+						continue
+					}
+					checkedCalls[c] = true
+					run.Count("label-check-callers", 1)
+					key := fn.Pkg.Pkg.Name() + "." + fn.Name() + "/" + callee.Name()
+					var errv ssa.Value
+					if res.Len() == 1 {
+						errv = c
+					} else if c.Referrers() != nil {
+						for _, rf := range *c.Referrers() {
+							if ex, ok := rf.(*ssa.Extract); ok && ex.Index == res.Len()-1 {
+								errv = ex
+							}
+						}
+					}
+					if errv == nil || errv.Referrers() == nil {
+						run.Violate("unknown-label-rejected", key, p.Rel(c.Pos()), "the error of "+callee.Name()+" is discarded: an unknown label is read as the bit 0", nil)
+						continue
+					}
+					checked := false
+					for _, rf := range *errv.Referrers() {
+						bo, ok := rf.(*ssa.BinOp)
+						if !ok || (bo.Op != token.NEQ && bo.Op != token.EQL) {
 							continue
 						}
-						eb := iff.Block().Succs[0]
-						if bo.Op == token.EQL {
-							eb = iff.Block().Succs[1]
-						}
-						if errorExit(eb) {
-							checked = true
+						for _, r2 := range *bo.Referrers() {
+							iff, ok := r2.(*ssa.If)
+							if !ok {
+								continue
+							}
+							eb := iff.Block().Succs[0]
+							if bo.Op == token.EQL {
+								eb = iff.Block().Succs[1]
+							}
+							if errorExit(eb) {
+								checked = true
+							}
 						}
 					}
-				}
-				if checked {
-					for _, role := range []string{"circuit.Garbler", "compiler/ssa.Stream"} {
-						if role == fn.Pkg.Pkg.Path()[len(load.Module)+1:]+"."+fn.Name() {
-							decisions[role]++
+					// `return helper(...)`: the error is the caller's own error result
+					if !checked {
+						for _, rf := range *errv.Referrers() {
+							if r, ok := rf.(*ssa.Return); ok {
+								rs := load.Results(r)
+								if len(rs) > 0 && rs[len(rs)-1] == errv {
+									checked = true
+								}
+							}
 						}
 					}
-					run.OK("unknown-label-rejected", key, p.Rel(c.Pos()), "error tested, error return")
-				} else {
-					run.Violate("unknown-label-rejected", key, p.Rel(c.Pos()), "the error of BitFromLabel does not end the function with an error", nil)
+					if checked {
+						decider[fn]++
+						grew = true
+						run.OK("unknown-label-rejected", key, p.Rel(c.Pos()), "error tested, error return")
+					} else {
+						run.Violate("unknown-label-rejected", key, p.Rel(c.Pos()), "the error of "+callee.Name()+" does not end the function with an error", nil)
+					}
 				}
 			}
 		}
+		if !grew {
+			break
+		}
 	}
-	for _, role := range []string{"circuit.Garbler", "compiler/ssa.Stream"} {
-		run.Count("result-decisions", decisions[role])
-		if decisions[role] == 0 {
-			run.Violate("unknown-label-rejected", role, "", "the role decides no result bit through a label comparison that rejects unknown labels (neither a local comparison chain nor a checked BitFromLabel call)", nil)
+	for _, rf := range roles {
+		role := roleKey[rf]
+		run.Count("result-decisions", decider[rf])
+		if decider[rf] == 0 {
+			run.Violate("unknown-label-rejected", role, "", "the role decides no result bit through a label comparison that rejects unknown labels (neither a local comparison chain nor a checked call of a function that has one)", nil)
 		} else {
-			run.OK("unknown-label-rejected", role, "", fmt.Sprintf("%d rejecting label decisions", decisions[role]))
+			run.OK("unknown-label-rejected", role, "", fmt.Sprintf("%d rejecting label decisions", decider[rf]))
 		}
 	}
 	run.Floor("label-comparisons", 2)
+}
+
+func fn16key(f *ssa.Function) string {
+	pp := strings.TrimPrefix(f.Pkg.Pkg.Path(), load.Module+"/")
+	return pp + "." + f.Name()
 }
